@@ -363,6 +363,7 @@ def main(argv=None):
     ap.add_argument("--jobs", type=int, default=min(16, os.cpu_count() or 1))
     ap.add_argument("--cap", type=float)
     ap.add_argument("--keep", action="store_true")
+    ap.add_argument("--save-known", help="directory: write one minimised replay per known finding that was hit")
     a = ap.parse_args(argv)
     sys.path.insert(0, VERIF)
     from simloky import engine
@@ -388,6 +389,14 @@ def main(argv=None):
         if k is not None:
             kh = known_hits.setdefault(k["id"], dict(count=0, what=k["what"]))
             kh["count"] += ent["count"]
+            if a.save_known and not kh.get("saved"):
+                dst = os.path.join(a.save_known, "%s_%s.json" % (k["id"], prop.id))
+                if not os.path.exists(dst):
+                    path, ok = report_violation(prop, sig, ent, agg["workdir"], do_min=True)
+                    if ok:
+                        os.makedirs(a.save_known, exist_ok=True)
+                        shutil.move(path, dst)
+                        kh["saved"] = dst
         else:
             new.append((sig, ent))
     for kid, kh in sorted(known_hits.items()):
